@@ -129,6 +129,46 @@ func c11Storage(lists []c11List, file bool) (*filterlist.RuleStorage, func()) {
 	}
 }
 
+// c11Synthetic builds two lists larger than the read buffer.
+func c11Synthetic(final string) []c11List {
+	var sb strings.Builder
+	for i := 0; i < 400; i++ {
+		switch i % 7 {
+		case 3:
+			fmt.Fprintf(&sb, "0.0.0.0 repeated.big.test h%d.big.test\n", i)
+		case 5:
+			fmt.Fprintf(&sb, "||n%d.big.test^$important\n", i)
+		case 6:
+			fmt.Fprintf(&sb, "big.test##.s%d\n", i)
+		default:
+			fmt.Fprintf(&sb, "0.0.0.0 h%d.big.test\n", i)
+		}
+	}
+	content := strings.TrimSuffix(sb.String(), "\n") + final
+	return []c11List{{0, content, false}, {7, "0.0.0.0 repeated.big.test\n" + content, true}}
+}
+
+// c11ProbeHosts returns host names listed in hosts-file lines of the lists.
+func c11ProbeHosts(lists []c11List) (hosts []string) {
+	seen := map[string]bool{}
+	for _, l := range lists {
+		lines := strings.Split(l.content, "\n")
+		step := len(lines)/400 + 1
+		for i := 0; i < len(lines); i += step {
+			r, err := rules.NewRule(strings.TrimRight(lines[i], "\r"), l.id)
+			if hr, ok := r.(*rules.HostRule); ok && err == nil && hr != nil {
+				for _, h := range hr.Hostnames {
+					if !seen[h] {
+						seen[h] = true
+						hosts = append(hosts, h)
+					}
+				}
+			}
+		}
+	}
+	return hosts
+}
+
 func c11Scan(st *filterlist.RuleStorage) (out []c11Entry) {
 	sc := st.NewRuleStorageScanner()
 	for sc.Scan() {
@@ -221,6 +261,12 @@ func c11Check(c *Ctx, lists []c11List, sig map[string]any, replay map[string]any
 					res, ok := de.Match(strings.TrimSuffix(strings.TrimPrefix(u, "http://"), "/"))
 					sb.WriteString(fmt.Sprintf("%v %s %d %d;", ok, renderNetText(res.NetworkRule), len(res.HostRulesV4), len(res.HostRulesV6)))
 				}
+				// names the lists themselves mention in hosts-file lines (all of them for
+				// short lists, a stride for the bundled ones)
+				for _, h := range c11ProbeHosts(lists) {
+					res, ok := de.Match(h)
+					sb.WriteString(fmt.Sprintf("%s:%v %d %d;", h, ok, len(res.HostRulesV4), len(res.HostRulesV6)))
+				}
 				answers[bi] = sb.String()
 			}); p != nil {
 				bad("no-crash", fmt.Sprintf("%s %s: panic: %v", name, c11Describe(lists), p))
@@ -252,6 +298,15 @@ func init() {
 			return s
 		}
 		if c.Replay != nil {
+			if f, ok := c.Replay["synthetic_final"].(string); ok {
+				c11Check(c, c11Synthetic(f), map[string]any{}, c.Replay)
+				return
+			}
+			if rel, ok := c.Replay["corpus_file"].(string); ok {
+				ic, _ := c.Replay["ignore_cosmetic"].(bool)
+				c11Check(c, []c11List{{1, corpusContent(rel), ic}}, map[string]any{}, c.Replay)
+				return
+			}
 			var lists []c11List
 			for _, l := range c.Replay["lists"].([]any) {
 				m := l.(map[string]any)
@@ -380,10 +435,16 @@ func init() {
 					continue
 				}
 				desc := map[string]any{"file": rel, "ignore_cosmetic": ic}
-				evals += c11Check(c, []c11List{{fi + 1, content, ic}}, desc, map[string]any{"lists": []any{}})
+				evals += c11Check(c, []c11List{{fi + 1, content, ic}}, desc, map[string]any{"corpus_file": rel, "ignore_cosmetic": ic})
 				configs++
 			}
 			corpusRules += int64(len(c11Reference(content, fi+1, false)))
+		}
+		// synthetic lists larger than the read buffer: repeated host names, rules of
+		// every kind, with and without a final line terminator
+		for _, final := range []string{"\n", ""} {
+			evals += c11Check(c, c11Synthetic(final), map[string]any{"synthetic": "400 lines", "final": final}, map[string]any{"synthetic_final": final})
+			configs++
 		}
 		c.Run.Set("corpus_rules_scanned_and_retrieved", corpusRules)
 		c.Run.Set("list_shape_assignments", int64(len(shapes)))
